@@ -453,6 +453,11 @@ func runC06(c *Ctx) {
 			case "Write", "Data":
 				decC = append(decC, wtok{"bytes", "Data", false})
 			case "Open", "Setstat", "Fsetstat", "Mkdir":
+				// ATTRS = flags word + the fields it announces: the decoder reads the word and either leaves the
+				// fields undecoded or runs unmarshalFileStat(flags, rest) over them to validate
+				if n := len(decC); n > 1 && decC[n-1].Prim == "attrs" && decC[n-2].Field == "Flags" {
+					decC = decC[:n-1]
+				}
 				if len(decC) > 0 && decC[len(decC)-1].Field == "Flags" {
 					decC[len(decC)-1] = wtok{"attrs", "", false}
 				}
@@ -470,7 +475,11 @@ func runC06(c *Ctx) {
 			for len(e) > 0 && e[len(e)-1].Prim == "attrs" {
 				e = e[:len(e)-1]
 			}
-			es, ds := toksString(e, true), toksString(decT, true)
+			d := decT
+			for len(d) > 0 && d[len(d)-1].Prim == "attrs" && len(d) > 1 && d[len(d)-2].Field == "Flags" {
+				d = d[:len(d)-1]
+			}
+			es, ds := toksString(e, true), toksString(d, true)
 			c.check(es == ds, "R1", "sftp "+tn+" encoder = decoder", p.Pos(enc.Pos()), es, fmt.Sprintf("%s is encoded as [%s] but decoded as [%s]: fields are exchanged or have different widths", tn, es, ds))
 		}
 	}
